@@ -21,7 +21,17 @@ THEOREMS = {
         "MG.C10.constants_never_get_grad",
         "MG.C10.grads_only_on_reached_tensors",
         "MG.C10.backward_on_constant_only_clears",
-    ]
+    ],
+    "MG.Proofs.Lemmas.InPlaceFlag": [
+        "MG.C10F.inplace_ignores_explicit_constant",
+        "MG.C10F.opStepOut_const",
+    ],
+    "MG.Proofs.Lemmas.InPlaceRefine": [
+        "MG.C04R.inplace_on_owner_refines_numpy_general",
+    ],
+    "MG.Proofs.Lemmas.InPlaceView": [
+        "MG.C04V.inplace_through_view_refines_numpy",
+    ],
 }
 
 GEN = dict(inplace=True, p_inplace=0.2, p_view=0.2, p_fail=0.0, p_const=0.45, n_stmts=9)
@@ -431,8 +441,11 @@ MANIFEST = {
             "operand (x.data, astensor(x, constant=True), tensor(x.data, constant=True, copy=False); both operand "
             "orders) and must give x the gradient an independent ndarray gives; the dtype gate is enumerated over "
             "all admitted dtypes.",
-    "note": "Trusted: Lean kernel, standard axioms, correspondence harness. In-place targets keeping their flag is checked by the "
-            "oracle and the correspondence, proved only for base targets.",
+    "note": "Trusted: Lean kernel, standard axioms, correspondence harness. In-place targets keep their flag: "
+            "inplace_ignores_explicit_constant (any target, operands, mask and outcome: an explicit constant= changes nothing in the "
+            "whole _in_place_op of the model) together with the refinement theorems of C04 (the flag of the target — and, for an "
+            "update through a view, of the base — is the one it had); the implementation is held to the same statement by the API-level "
+            "cases.",
 }
 
 
